@@ -11,9 +11,10 @@
      attempt_add_phase_information  -> tag_aln (direct hit by read name; BX fall back: first cloud within
                                        the cut-off)
      ignore_read                    -> ignore_read
-     run_haplotag's writing loop    -> out_rec, chrom_out (one fetch per region), run_current
-                                       (dict order of normalize_user_regions, unmapped tail copied as is)
-   The repaired region rule (candidate fix for finding F8) is the pair norm_fixed / chrom_out_fixed,
+     run_haplotag's writing loop    -> out_rec, list_rec, plan_none / plan_current (one fetch per region,
+                                       dict order of normalize_user_regions), run_current / list_current
+                                       (unmapped tail copied as is)
+   The repaired region rule (candidate fix for finding F8) is the pair norm_fixed / written_fixed,
    used by run_fixed; run_current is what /repo does today.
 
    Trusted / supplied as data by the harness: the variant table rows and the read sets (alleles detected
@@ -246,9 +247,39 @@ Definition fetch (alns : list aln) (rg : region) : list aln := filter (overlaps 
 
 Record chrom := mkChrom { c_samples : list sample_in; c_alns : list aln }.
 
-Definition chrom_out (cfg : config) (c : chrom) (regs : list region) : list (Z * tags3) :=
-  let st := prepare cfg (c_samples c) in
-  flat_map (fun rg => map (out_rec cfg st) (fetch (c_alns c) rg)) regs.
+(* --output-haplotag-list: one line per written non-secondary, non-supplementary alignment of the
+   chromosome loop (not for the unmapped tail): (name, haplotype or none, phaseset or none).
+   Quirk of attempt_add_phase_information: the loop over the read clouds of the BX tag rebinds the
+   variable `phaseset`, so an alignment that finds no cloud within the cut-off is listed with haplotype
+   "none" but with the phase set of the last cloud of its barcode. *)
+Definition list_entry (cfg : config) (st : pstate) (a : aln) : option Z * option Z :=
+  if ignore_read cfg a then (None, None) else
+  match lookup (a_name a) (r2h st) with
+  | Some (h, q, ps) => (Some (Z.of_nat h + 1), Some ps)
+  | None =>
+      if linked cfg then
+        match a_bx a with
+        | None => (None, None)
+        | Some b =>
+            let clouds := lookup_list b (bx2h st) in
+            match find (fun c => close (cutoff cfg) (fst (fst c)) (a_start a)) clouds with
+            | Some (_, h, ps) => (Some (Z.of_nat h + 1), Some ps)
+            | None => (None, match rev clouds with [] => None | (_, _, ps) :: _ => Some ps end)
+            end
+        end
+      else (None, None)
+  end.
+Definition list_rec (cfg : config) (st : pstate) (k : Z) (a : aln) : list (Z * option Z * option Z * Z) :=
+  if a_secondary a || a_suppl a then [] else [(a_name a, fst (list_entry cfg st a), snd (list_entry cfg st a), k)].
+
+(* a plan: for each processed chromosome (index, data) the alignments fetched, in the order written *)
+Definition plan := list (Z * chrom * list aln).
+
+Definition out_of_plan (cfg : config) (pl : plan) : list (Z * tags3) :=
+  flat_map (fun x => let st := prepare cfg (c_samples (snd (fst x))) in map (out_rec cfg st) (snd x)) pl.
+Definition list_of_plan (cfg : config) (pl : plan) : list (Z * option Z * option Z * Z) :=
+  flat_map (fun x => let st := prepare cfg (c_samples (snd (fst x))) in
+                     flat_map (list_rec cfg st (fst (fst x))) (snd x)) pl.
 
 (* normalize_user_regions, current: a dict chromosome -> regions in the order given *)
 Definition group_regions (l : list (Z * region)) : list (Z * list region) :=
@@ -267,27 +298,31 @@ Definition sample_wf (pl : nat) (s : sample_in) : bool :=
 Definition input_wf (cfg : config) (chroms : list chrom) : bool :=
   Nat.leb 2 (ploidy cfg) && forallb (fun c => forallb (sample_wf (ploidy cfg)) (c_samples c)) chroms.
 
-Definition chroms_of (chroms : list chrom) (user : list (Z * list region)) : list (chrom * list region) :=
+(* without --regions: every chromosome of the BAM header, one fetch of the whole chromosome *)
+Definition plan_none (chroms : list chrom) : plan :=
+  map (fun kc => (Z.of_nat (fst kc), snd kc, fetch (c_alns (snd kc)) whole)) (combine (seq 0 (length chroms)) chroms).
+(* with --regions, current code: chromosomes in the order of first mention, one fetch per region as given *)
+Definition plan_of (chroms : list chrom) (user : list (Z * list region))
+           (wr : list aln -> list region -> list aln) : plan :=
   flat_map (fun kr => match nth_error chroms (Z.to_nat (fst kr)) with
-                      | Some c => [(c, snd kr)]
+                      | Some c => [(fst kr, c, wr (c_alns c) (snd kr))]
                       | None => []
                       end) user.
+Definition written_current (alns : list aln) (regs : list region) : list aln := flat_map (fetch alns) regs.
+Definition plan_current (chroms : list chrom) (l : list (Z * region)) : plan :=
+  plan_of chroms (group_regions l) written_current.
 
-(* run_haplotag, current code.  user = None: no --regions. *)
+(* run_haplotag, current code.  user = None: no --regions; the unplaced unmapped tail is copied as is. *)
 Definition run_current (cfg : config) (chroms : list chrom) (user : option (list (Z * region)))
            (tail : list aln) : option (list (Z * tags3)) :=
   if negb (input_wf cfg chroms) then None else
   Some match user with
-       | None => flat_map (fun c => chrom_out cfg c [whole]) chroms ++ map (fun a => (a_id a, a_old a)) tail
-       | Some l => flat_map (fun cr => chrom_out cfg (fst cr) (snd cr)) (chroms_of chroms (group_regions l))
+       | None => out_of_plan cfg (plan_none chroms) ++ map (fun a => (a_id a, a_old a)) tail
+       | Some l => out_of_plan cfg (plan_current chroms l)
        end.
-
-(* --output-haplotag-list: one line per written non-secondary, non-supplementary alignment of the
-   chromosome loop (not for the unmapped tail): (name, HP or none, PS or none) *)
-Definition list_lines (alns : list aln) (out : list (Z * tags3)) : list (Z * option Z * option Z) :=
-  flat_map (fun p => let '(a, o) := p in
-              if a_secondary a || a_suppl a then [] else [(a_name a, fst (fst (snd o)), snd (fst (snd o)))])
-           (combine alns out).
+Definition list_current (cfg : config) (chroms : list chrom) (user : option (list (Z * region)))
+  : list (Z * option Z * option Z * Z) :=
+  list_of_plan cfg (match user with None => plan_none chroms | Some l => plan_current chroms l end).
 
 (* ------------------------------------------------------------------------------------------------ *)
 (* repaired region rule (candidate patch for F8): chromosomes in BAM order; regions of a chromosome
@@ -328,18 +363,20 @@ Fixpoint fetch_dedup (alns : list aln) (prev_end : option Z) (regs : list region
                ++ fetch_dedup alns (snd rg) t
   end.
 
-Definition chrom_out_fixed (cfg : config) (c : chrom) (regs : list region) : list (Z * tags3) :=
-  let st := prepare cfg (c_samples c) in
-  map (out_rec cfg st) (fetch_dedup (c_alns c) (Some 0) regs).
+Definition written_fixed (alns : list aln) (regs : list region) : list aln := fetch_dedup alns (Some 0) regs.
+Definition plan_fixed (chroms : list chrom) (l : list (Z * region)) : plan :=
+  plan_of chroms (norm_fixed (length chroms) l) written_fixed.
 
 Definition run_fixed (cfg : config) (chroms : list chrom) (user : option (list (Z * region)))
            (tail : list aln) : option (list (Z * tags3)) :=
   if negb (input_wf cfg chroms) then None else
   Some match user with
-       | None => flat_map (fun c => chrom_out cfg c [whole]) chroms ++ map (fun a => (a_id a, a_old a)) tail
-       | Some l => flat_map (fun cr => chrom_out_fixed cfg (fst cr) (snd cr))
-                            (chroms_of chroms (norm_fixed (length chroms) l))
+       | None => out_of_plan cfg (plan_none chroms) ++ map (fun a => (a_id a, a_old a)) tail
+       | Some l => out_of_plan cfg (plan_fixed chroms l)
        end.
+Definition list_fixed (cfg : config) (chroms : list chrom) (user : option (list (Z * region)))
+  : list (Z * option Z * option Z * Z) :=
+  list_of_plan cfg (match user with None => plan_none chroms | Some l => plan_fixed chroms l end).
 
 (* ------------------------------------------------------------------------------------------------ *)
 (* executable specification side (restates the property text; evaluated on the implementation's output) *)
@@ -415,24 +452,41 @@ Definition tags_ok_chrom (cfg : config) (c : chrom) (alns : list aln) (out : lis
              negb (unlinked cfg c a) || tag_ok (ploidy cfg) (c_samples c) a (snd o))
           (combine alns out).
 
+(* the haplotag list agrees with the written records: one line (name, HP, PS) per primary record *)
+Definition list_of_records (outs : list aln) : list (Z * option Z * option Z) :=
+  flat_map (fun a => if a_secondary a || a_suppl a then [] else [(a_name a, fst (fst (a_old a)), snd (fst (a_old a)))]) outs.
+
 (* swap symmetry on two observed outputs: p is the permutation applied to the haplotype columns of
-   phase set S of sample k (new column j = old column p[j]); smp a = sample index of the alignment's read
-   group.  For alignments of sample k tagged with PS = S the new HP is the position of the old haplotype
+   phase set bs of sample k (new column j = old column p[j]); smp a = sample index of the alignment's read
+   group.  For alignments of sample k tagged with PS = bs the new HP is the position of the old haplotype
    in p; everything else is unchanged. *)
 Definition pos_in (h : nat) (p : list nat) : nat :=
   (fix go (l : list nat) : nat := match l with [] => 0%nat | x :: t => if Nat.eqb x h then 0%nat else S (go t) end) p.
-Definition swap_tags (p : list nat) (S : Z) (t : tags3) : tags3 :=
+Definition swap_tags (p : list nat) (bs : Z) (t : tags3) : tags3 :=
   match t with
   | (Some hp, Some ps, pc) =>
-      if ps =? S then (Some (Z.of_nat (pos_in (Z.to_nat (hp - 1)) p) + 1), Some ps, pc) else t
+      if ps =? bs then (Some (Z.of_nat (pos_in (Z.to_nat (hp - 1)) p) + 1), Some ps, pc) else t
   | _ => t
   end.
-Definition swap_ok (p : list nat) (S : Z) (k : Z) (smp : list (option Z)) (out out' : list (Z * tags3)) : bool :=
+Definition swap_ok (p : list nat) (bs : Z) (k : Z) (smp : list (option Z)) (out out' : list (Z * tags3)) : bool :=
   Nat.eqb (length out) (length out') && Nat.eqb (length out) (length smp) &&
   forallb (fun x => let '(s, (o, o')) := x in
              (fst o =? fst o') &&
-             tags_eqb (snd o') (if opt_eqb s k then swap_tags p S (snd o) else snd o))
+             tags_eqb (snd o') (if opt_eqb s k then swap_tags p bs (snd o) else snd o))
           (combine smp (combine out out')).
+
+(* the permuted variant table: haplotype column j of phase set bs becomes the old column p[j] *)
+Definition permute {A : Type} (d : A) (p : list nat) (v : list A) : list A := map (fun j => nth j v d) p.
+Definition swap_phase (p : list nat) (bs : Z) (ph : phase) : phase :=
+  if fst ph =? bs then (fst ph, permute 0 p (snd ph)) else ph.
+Definition swap_rows (p : list nat) (bs : Z) (rows : list vrow) : list vrow :=
+  map (fun r => match r with (pos, hom, Some ph) => (pos, hom, Some (swap_phase p bs ph)) | _ => r end) rows.
+Definition swap_samples (p : list nat) (bs : Z) (samples : list sample_in) : list sample_in :=
+  map (fun s => (swap_rows p bs (fst s), snd s)) samples.
+Definition swap_chrom (p : list nat) (bs : Z) (c : chrom) : chrom :=
+  mkChrom (swap_samples p bs (c_samples c)) (c_alns c).
+Definition is_perm (p : list nat) (n : nat) : bool :=
+  Nat.eqb (length p) n && forallb (fun k => existsb (Nat.eqb k) p) (seq 0 n).
 
 (* a BX group of >= 2 reads whose accumulated table has two phase sets with the same (maximal) maximum:
    the reported phase set then depends on python's set iteration order *)
